@@ -787,7 +787,11 @@ func (c *Core) OnEvent(s *Sim, e *simrt.Event) {
 		}
 		c.checkBoth(s)
 	case "panic-recovered":
-		c.recovered = append(c.recovered, e.S)
+		if e.A == 1 {
+			c.recovered = append(c.recovered, e.S)
+		} else {
+			s.Probe("handler-panic-recovered")
+		}
 	case "ready":
 		if e.A == 1 && c.readyTrue == 0 {
 			c.readyTrue = int(e.Step)
